@@ -12,7 +12,9 @@
      L cps                              -> PlainEnglish.parse(text) likewise (run_raw): "L c s e w ..."
      W c s e w c s e w ...              -> UnclosedQuotes::lint on these tokens (w = twin_loc + 1) and, for every guarded
                                            window body of Tables_c12rules.window_guards in table order, the windows that
-                                           pass the kind guard (Model/C12Windows.run_rules): "W s e,s e | s e | - | ..." *)
+                                           pass the kind guard (Model/C12Windows.run_rules): "W s e,s e | s e | - | ..."
+     K c s e u c s e u ... | cps        -> CommaFixes::lint on these tokens (u = 1: TokenKind::Unlintable) and this source
+                                           (Model/C12Comma.run_comma): "K s e id,s e id" / "K -" *)
 let rec quads_in = function
   | c :: s :: e :: w :: t -> (nat_of_int c, (nat_of_int s, (nat_of_int e, nat_of_int w))) :: quads_in t
   | _ -> []
@@ -53,6 +55,14 @@ let () =
     | 'W' ->
         let (u, gs) = run_rules (quads_in (ints_of_line body)) in
         print_endline ("W " ^ String.concat " | " (List.map spans_str (u :: gs)))
+    | 'K' ->
+        (match split_bar body with
+         | [toks; src] ->
+             let ls = run_comma (quads_in (ints_of_line toks)) (text_of_line src) in
+             if ls = [] then print_endline "K -" else
+             print_endline ("K " ^ String.concat ","
+               (List.map (fun (s, (e, i)) -> Printf.sprintf "%d %d %d" (int_of_nat s) (int_of_nat e) (int_of_nat i)) ls))
+         | _ -> print_endline "?")
     | 'T' -> quads "T" (run_doc (text_of_line body))
     | 'L' -> quads "L" (run_raw (text_of_line body))
     | 'G' ->
